@@ -151,16 +151,21 @@ def unit_forms_equal(eng, pair):
     return verify(eng, name, run, post, func="insns.RegisterModeOperandStub.encode (two spellings)")
 
 
-def unit_word_forms(eng, n):
-    """explicit '.word a, b' vs the implicit word list 'a, b': same bytes, same size, same odd-address behaviour"""
+def unit_word_forms(eng, n, dot=False):
+    """explicit '.word a, b' vs the implicit word list 'a, b': same bytes, same size, same odd-address behaviour; with dot=True every word is
+    the location counter '.' (the real InstructionPointer token): in both spellings it denotes the address of the statement"""
     def run(eng):
         use_callee_contracts(eng, "wait", "get_as_int")
         eng.lazy_mode = "eager"
         eng.I = {}
         vals = [dyn_input(eng, "v%d" % i) for i in range(n)]
         addr = int_input(eng, "addr")
-        toks1 = [value_token(eng, d[0], "a%d" % i) for i, d in enumerate(vals)]
-        toks2 = [value_token(eng, d[0], "b%d" % i) for i, d in enumerate(vals)]
+        if dot:
+            toks1 = [insn.new(eng, "types", "InstructionPointer") for _ in range(n)]
+            toks2 = [insn.new(eng, "types", "InstructionPointer") for _ in range(n)]
+        else:
+            toks1 = [value_token(eng, d[0], "a%d" % i) for i, d in enumerate(vals)]
+            toks2 = [value_token(eng, d[0], "b%d" % i) for i, d in enumerate(vals)]
         out = []
         for which in ("explicit", "implicit"):
             before = len(eng.path.events)
@@ -189,7 +194,10 @@ def unit_word_forms(eng, n):
         if ok1 and ok2:
             eng.prove("same-bytes", zbytes(ex[1]) == zbytes(im[1]))
             eng.prove("same-announced-size", announced_len(ex[1]) == announced_len(im[1]) if (isinstance(ex[1], Lazy) and isinstance(im[1], Lazy)) else True)
-    return verify(eng, "word-forms[n=%d]" % n, run, post, func="metacommands.word vs compiler.Compiler.compile_word_list")
+    r = verify(eng, "word-forms[n=%d%s]" % (n, ",dot" if dot else ""), run, post, func="metacommands.word vs compiler.Compiler.compile_word_list")
+    for o_ in r["obligations"]:
+        o_["cfg"] = dict(kind="word-forms", n=n, dot=dot)
+    return r
 
 
 def unit_paren(eng):
@@ -488,6 +496,7 @@ def units(tier):
         us.append(("forms[%s,%s]" % pair, "unit_forms_equal", dict(pair=pair)))
     for n in (1, 2, 3):
         us.append(("word-forms[%d]" % n, "unit_word_forms", dict(n=n)))
+        us.append(("word-forms[%d,dot]" % n, "unit_word_forms", dict(n=n, dot=True)))
     us.append(("synonyms", "unit_init_closed", {}))
     # rN versus %N inside every addressing form, also behind an index expression
     for sh in insn.PCT_SHAPES:
@@ -523,6 +532,16 @@ def replay(o, tree):
         bad = [(pairs[i][0], [res[2 * i]["status"], res[2 * i].get("code_hex")], [res[2 * i + 1]["status"], res[2 * i + 1].get("code_hex")]) for i in range(len(pairs))
                if (res[2 * i]["status"], res[2 * i].get("code_hex")) != (res[2 * i + 1]["status"], res[2 * i + 1].get("code_hex"))]
         return dict(jobs=jobs[:4], expected="the implicit / differently-cased spelling assembles like the explicit one", observed=bad, reproduced=bool(bad))
+    if (o.get("cfg") or {}).get("kind") == "word-forms":
+        pairs = [("nop\n0, .\n", "nop\n.word 0, .\n"), ("a: nop\n3, a-., b-., c-.\nb: nop\nc:\n", "a: nop\n.word 3, a-., b-., c-.\nb: nop\nc:\n"), (".repeat 2 { 5, .+2 }\n", ".repeat 2 { .word 5, .+2 }\n"),
+                 ("1, 2, 3\n", ".word 1, 2, 3\n"), (".byte 1\n1, 2\n", ".byte 1\n.word 1, 2\n"), ("177777, -1\n", ".word 177777, -1\n")]
+        jobs = []
+        for a_, b_ in pairs:
+            jobs += [{"kind": "asm", "sources": [a_]}, {"kind": "asm", "sources": [b_]}]
+        res = driver.native(jobs, tree)
+        bad = [(pairs[i][0], [res[2 * i]["status"], res[2 * i].get("code_hex")], [res[2 * i + 1]["status"], res[2 * i + 1].get("code_hex")]) for i in range(len(pairs))
+               if (res[2 * i]["status"], res[2 * i].get("code_hex")) != (res[2 * i + 1]["status"], res[2 * i + 1].get("code_hex"))]
+        return dict(jobs=jobs[:4], expected="the implicit word list assembles like the explicit '.word'", observed=bad, reproduced=bool(bad))
     if (o.get("cfg") or {}).get("kind") == "pct":
         from contracts import c08
         r = c08.replay(o, tree)
